@@ -3,7 +3,7 @@ import KrroodVerif.Model.SymbolGraph
 Reachability in the heap of `Model/SymbolGraph.lean`: the inductive relation `Reach`, soundness and completeness of the
 fuelled worklist `Heap.reach` (fuel `live.length + 1` is adequate as soon as roots and field values are live),
 `Heap.collect` leaves a heap without garbage (idempotence), and the monotonicity lemmas used by the run-level theorem
-`C20_no_garbage_run_partial` (Props/C20Run.lean).
+`C20_no_garbage_run` (Props/C20Run.lean).
 -/
 namespace KrroodVerif.SG
 
